@@ -437,6 +437,16 @@ func unfoldConj(e Expr, preds map[string]*Pred, pkg string, depth int) []Expr {
 		if n.Op == "&&" {
 			return append(unfoldConj(n.X, preds, pkg, depth), unfoldConj(n.Y, preds, pkg, depth)...)
 		}
+		if n.Op == "==>" {
+			rhs := unfoldConj(n.Y, preds, pkg, depth)
+			if len(rhs) > 1 {
+				var out []Expr
+				for _, r := range rhs {
+					out = append(out, &EBinary{"==>", n.X, r})
+				}
+				return out
+			}
+		}
 	case *ECall:
 		if p, ok := preds[n.Fn]; ok && n.Recv == nil && depth < 4 && p.Pkg == pkg && len(p.Params) == len(n.Args) {
 			m := map[string]Expr{}
